@@ -138,10 +138,15 @@ Definition config_site (sites: list site) (c: nat) : option (nat * site) := find
 
 Definition keys := list (nat * tag).
 
+(* the value found under a discriminator key of the input: hashable (an abstract tag) or not (a list, a dict) *)
+Inductive tagv := Hashable (t: tag) | Unhashable.
+Definition inkeys := list (nat * tagv).
+
 Inductive op :=
 | Define (parents: list nat) (own_tags: keys) (tagger_tags: list (nat * list tag)) (own_req: list nat) (kerr: bool)
-| Decode (site_id: nat) (inp: keys) (present: list nat)
-| DecodeSeq (fields: list (nat * keys * list nat)).
+| Decode (site_id: nat) (inp: inkeys) (present: list nat)
+| DecodeSeq (fields: list (nat * inkeys * list nat))
+| DecodeBad (site_id: nat).     (* the input is not a mapping (a list, a number, a string, None) *)
 (* [inp]: the discriminator keys PRESENT in the input with their values (a key present with a falsy value or None
    is present); [present]: the other fields present.  DecodeSeq = ONE from_dict call of a holder with several
    discriminated fields: (site, its sub-input) in field order; the first failing field raises. *)
@@ -156,7 +161,8 @@ Inductive outcome :=
 | OBadSite
 | ORej (c: nat)            (* the selected class rejects the input (MissingField / InvalidFieldValue of class c surfaces) *)
 | OKeyErr (c: nat)         (* a KeyError leaving class c's from_dict; never leaves a dispatcher (internal) *)
-| OMany (cs: list nat).    (* all fields of a DecodeSeq succeeded *)
+| OMany (cs: list nat)     (* all fields of a DecodeSeq succeeded *)
+| ONotDict.                (* ValueError "Argument for ... discriminated by ... should be a dict instance" *)
 
 Definition st0 : st := St [] [].
 
@@ -219,7 +225,7 @@ Section Step.
 
   (* The generated dispatcher with registry key k and settings s (unpack.py:359-469), both modes. *)
   Fixpoint dispatcher (fuel: nat) (top: nat) (codec: bool) (k: rkey) (s: site) (x: st)
-                      (inp: keys) (present: list nat) : st * outcome :=
+                      (inp: inkeys) (present: list nat) : st * outcome :=
     match fuel with
     | 0 => (x, OBadSite)
     | S f =>
@@ -228,18 +234,27 @@ Section Step.
         if s_field s then
           match assoc (s_fid s) inp with
           | None => (x, OMissing)                                   (* value[field] -> KeyError -> MissingDiscriminatorError *)
-          | Some t => field_body enter top codec k s t x
+          | Some Unhashable => (x, ONotFound)                       (* hash(tag) -> TypeError: no variant can carry it; no lookup, no refill *)
+          | Some (Hashable t) => field_body enter top codec k s t x
           end
         else loop_body enter (variants (classes x) s) x
     end.
 
-  Definition decode1 (x: st) (i: nat) (inp: keys) (present: list nat) : st * outcome :=
+  Definition decode1 (x: st) (i: nat) (inp: inkeys) (present: list nat) : st * outcome :=
     match nth_error sites i with
     | None => (x, OBadSite)
     | Some s => dispatcher (S (S (length (classes x)))) i (s_codec s) (i, 0) s x inp present
     end.
 
-  Fixpoint decode_seq (x: st) (l: list (nat * keys * list nat)) (done: list nat) : st * outcome :=
+  (* a non-mapping input: `value[field]` raises TypeError -> ValueError; in no-field mode every variant rejects it *)
+  Definition decode_bad (x: st) (i: nat) : outcome :=
+    match nth_error sites i with
+    | None => OBadSite
+    | Some s => if negb (site_ok s (length (classes x))) then OBadSite
+                else if s_field s then ONotDict else ONotFound
+    end.
+
+  Fixpoint decode_seq (x: st) (l: list (nat * inkeys * list nat)) (done: list nat) : st * outcome :=
     match l with
     | [] => (x, OMany (rev done))
     | (i, inp, present) :: r =>
@@ -255,6 +270,7 @@ Section Step.
     | Define ps tg tu rq ke => (St (classes x ++ [define (classes x) ps tg tu rq ke]) (regs x), None)
     | Decode i inp present => let (x', o) := decode1 x i inp present in (x', Some o)
     | DecodeSeq l => let (x', o) := decode_seq x l [] in (x', Some o)
+    | DecodeBad i => (x, Some (decode_bad x i))
     end.
 
   Definition final (ops: list op) : st := fold_left (fun x o => fst (step x o)) ops st0.
@@ -301,6 +317,7 @@ Definition outcome_eqb (a b: outcome) : bool :=
   | OInst x, OInst y | ORej x, ORej y | OKeyErr x, OKeyErr y => Nat.eqb x y
   | OMissing, OMissing | ONotFound, ONotFound | OBadSite, OBadSite => true
   | OMany x, OMany y => list_eqb Nat.eqb x y
+  | ONotDict, ONotDict => true
   | _, _ => false
   end.
 
@@ -319,12 +336,13 @@ Fixpoint uniq_flags (sites: list site) (cl: list cls) (ops: list op) : list (opt
   | Decode i inp _ :: r =>
       (match nth_error sites i with
        | Some s => match assoc (s_fid s) inp with
-                   | Some t => if s_field s then Some (tag_uniqueb cl s t) else None
-                   | None => None
+                   | Some (Hashable t) => if s_field s then Some (tag_uniqueb cl s t) else None
+                   | _ => None
                    end
        | None => None
        end) :: uniq_flags sites cl r
   | DecodeSeq _ :: r => None :: uniq_flags sites cl r
+  | DecodeBad _ :: r => None :: uniq_flags sites cl r
   end.
 
 Definition obool_eqb (a b: option bool) : bool :=
